@@ -215,6 +215,12 @@ def apply(names, value, inplace, with_month=True, context=False):
     if with_month:
         fields.append(Field("month", value))
     fields.append(Field("year", "2020"))
+    if context:
+        # fields whose keys are case variants of `month` around the month field (seed C15-m: a case-insensitive, last-wins
+        # look-up took `Month` for the month field): keys are case-sensitive, these are other fields and stay as they are
+        fields.insert(1, Field("mOnth", "feb"))
+        fields.append(Field("Month", "{Spring}"))
+        fields.append(Field("MONTH", "13"))
     blocks = [Entry("article", "k", fields, raw=RAWS[(len(names) + (1 if inplace else 0) + (2 if context else 0)) % len(RAWS)], start_line=3)]
     if context:
         blocks = [String("jan", '"Janvier"'), String("December", "{Dezember}"), Preamble("p"), ExplicitComment("month = jan")] + blocks + \
@@ -233,7 +239,7 @@ def apply(names, value, inplace, with_month=True, context=False):
         if not with_month:
             return "ok", [(f.key, f.value) for f in e.fields]
         others = [(f.key, f.value) for f in e.fields if f.key != "month"]
-        if others != [("title", "{T}"), ("year", "2020")]:
+        if others != ([("title", "{T}"), ("mOnth", "feb"), ("year", "2020"), ("Month", "{Spring}"), ("MONTH", "13")] if context else [("title", "{T}"), ("year", "2020")]):
             return "lost", f"other fields changed: {others}"
         return "ok", e["month"]
     except BaseException as ex:   # escape monitor
